@@ -39,6 +39,22 @@ namespace
         friend type get(rl_state);
     };
     template struct rob<rl_state, &igris::readline::_state>;
+    // type-agnostic variant (the member's type is deduced: a narrowed index type must show as a
+    // difference of `consts2`, not as a harness that no longer compiles)
+    template <class Tag, auto M> struct rob2
+    {
+        friend auto get2(Tag) { return M; }
+    };
+    struct rl_head
+    {
+        friend auto get2(rl_head);
+    };
+    template struct rob2<rl_head, &igris::readline::_headhist>;
+    struct rl_cur
+    {
+        friend auto get2(rl_cur);
+    };
+    template struct rob2<rl_cur, &igris::readline::_curhist>;
 }
 
 namespace c15
@@ -81,6 +97,14 @@ namespace c15
             free(src);
             return 0;
         }
+        bool newdata_sz(const std::string &d, size_t sz) override
+        {
+            char *src = (char *)malloc(d.size() ? d.size() : 1);
+            memcpy(src, d.data(), d.size());
+            s.newdata(src, sz);
+            free(src);
+            return true;
+        }
         bool clear() override { s.clear(); return true; }
         bool set_size_cursor(unsigned len, unsigned cur) override { s.set_size_and_cursor(len, cur); return true; }
         int backspace(unsigned n) override { return s.backspace((int)n); }
@@ -88,7 +112,11 @@ namespace c15
         int left() override { return s.left(); }
         int right() override { return s.right(); }
         void reset() override { s.reset(); }
-        std::string getline() override { return std::string(s.getline()); }
+        std::string getline() override
+        {
+            const char *p = s.getline();
+            return s.storage_size() ? std::string(p) : std::string(); // no buffer: nothing to read
+        }
         bool equal(const std::string &str) override { return s.equal(str.c_str()); }
         unsigned len() override { return (unsigned)s.current_size(); }
         unsigned cursor() override { return (unsigned)(s.current_size() - s.rightsize()); }
@@ -127,6 +155,10 @@ namespace c15
         }
         void init_step() override { v.init_step(); }
         void key(uint8_t c) override { v.newdata((int16_t)c); }
+        void key16(int16_t c) override { v.newdata(c); }
+        std::string pstore;
+        void set_prompt(const std::string &p) override { pstore = p; v.set_prompt(pstore.c_str()); }
+        void set_echo(bool e) override { v.set_echo(e ? 1 : 0); }
         int state() override { return v.*get(vt_state()); }
         int rlstate() override { return (v.*get(vt_rl())).*get(rl_state()); }
         unsigned len() override { return (unsigned)(v.*get(vt_rl())).line().current_size(); }
@@ -134,4 +166,10 @@ namespace c15
         std::string text() override { return std::string((v.*get(vt_rl())).line().data(), (v.*get(vt_rl())).line().current_size()); }
     };
     ivterm *make_vterm_x(unsigned cap, unsigned depth, bool echo) { return new vterm_x(cap, depth, echo); }
+
+    std::string consts2_x()
+    {
+        igris::readline r;
+        return std::to_string(sizeof(r.*get2(rl_head()))) + " " + std::to_string(sizeof(r.*get2(rl_cur())));
+    }
 }
